@@ -731,6 +731,12 @@ fn dump<'tcx>(tcx: TyCtxt<'tcx>) -> J {
                 } else {
                     let t = tcx.type_of(did).instantiate_identity().skip_norm_wip();
                     it.set("ty", ty_json(tcx, t));
+                    if let DefKind::Static { mutability, .. } = kind {
+                        it.set("static_mut", J::Bool(mutability.is_mut()));
+                        // a static whose type is not Freeze has interior mutability: process-global mutable state
+                        it.set("freeze", J::Bool(t.is_freeze(tcx, TypingEnv::fully_monomorphized())));
+                        it.set("ty_s", J::s(rustc_middle::ty::print::with_no_trimmed_paths!(t.to_string())));
+                    }
                     if matches!(kind, DefKind::Const { .. } | DefKind::AssocConst { .. }) && tcx.generics_of(did).is_empty() {
                         match tcx.const_eval_poly(did) {
                             Ok(val) => {
